@@ -132,6 +132,14 @@ def canon(obj):
         return {"t": "dict", "items": [(_scalar(k), _array(v)) for k, v in obj.items()]}
     if isinstance(obj, np.ndarray):
         return {"t": "ndarray", "cols": {"": _array(obj)}, "index": None, "name": None}
+    try:
+        import pyarrow as pa
+
+        if isinstance(obj, (pa.Array, pa.ChunkedArray)):
+            # (never through repr(): it carries a memory address)
+            return {"t": "ndarray", "cols": {"": _array(np.asarray(obj.to_numpy(zero_copy_only=False) if isinstance(obj, pa.Array) else obj.to_numpy()))}, "index": None, "name": None}
+    except ImportError:
+        pass
     if isinstance(obj, (pd.Categorical,)):
         return {"t": "ndarray", "cols": {"": [_scalar(v) for v in obj.astype(object).tolist()]}, "index": None, "name": None}
     return {"t": "scalar", "value": _scalar(obj)}
